@@ -31,9 +31,11 @@ pub mod verif {
     use tokio::sync::RwLock;
 
     /// work handed to the reorg task / the block assembler task, and work they have finished:
-    /// `(reorgs_sent, reorgs_done, assembler_sent, assembler_done)`. The pool's background tasks
-    /// are idle when the pairs agree.
-    pub(crate) static WORK: [std::sync::atomic::AtomicU64; 4] = [
+    /// `(reorgs_sent, reorgs_done, assembler_sent, assembler_done, uncles_sent, uncles_done)`.
+    /// The pool's background tasks are idle when the pairs agree.
+    pub(crate) static WORK: [std::sync::atomic::AtomicU64; 6] = [
+        std::sync::atomic::AtomicU64::new(0),
+        std::sync::atomic::AtomicU64::new(0),
         std::sync::atomic::AtomicU64::new(0),
         std::sync::atomic::AtomicU64::new(0),
         std::sync::atomic::AtomicU64::new(0),
@@ -44,12 +46,12 @@ pub mod verif {
         WORK[i].fetch_add(1, std::sync::atomic::Ordering::SeqCst);
     }
 
-    /// true when every reorg notification and every block assembler message sent so far (by any
+    /// true when every reorg notification, new-uncle notification and block assembler message sent so far (by any
     /// pool service of this process) has been fully processed
     pub fn background_idle() -> bool {
         use std::sync::atomic::Ordering::SeqCst;
-        let done = (WORK[1].load(SeqCst), WORK[3].load(SeqCst));
-        let sent = (WORK[0].load(SeqCst), WORK[2].load(SeqCst));
+        let done = (WORK[1].load(SeqCst), WORK[3].load(SeqCst), WORK[5].load(SeqCst));
+        let sent = (WORK[0].load(SeqCst), WORK[2].load(SeqCst), WORK[4].load(SeqCst));
         sent == done
     }
 
